@@ -23,7 +23,7 @@ Alphabet == [k : {"lab"}, n : Names] \cup [k : {"rel"}, n : Names] \cup [k : {"a
 VARIABLES prog, lv, rv, sz, offs, total, last, placeOnly, changed, passes, st
 vars == <<prog, lv, rv, sz, offs, total, last, placeOnly, changed, passes, st>>
 
-Abs(x) == IF x < 0 THEN -x ELSE x
+Abs(x) == IF x = -2147483647 - 1 THEN 2147483647 ELSE IF x < 0 THEN -x ELSE x     \* (|INT_MIN| has as many hex digits as INT_MAX; -INT_MIN overflows TLC's integers)
 RECURSIVE Dig(_, _)
 Dig(y, n) == IF y >= R THEN Dig(y \div R, n + 1) ELSE n
 NumNib(v) == IF v = 0 THEN 1 ELSE IF v < 0 /\ Abs(v) < R THEN 2 ELSE Dig(Abs(v), 1)
